@@ -1428,8 +1428,83 @@ func randomRun(rq RandReq) (res Result) {
 		}
 		return 10 + rng.Intn(20+inserted/3)
 	}
+	// the catalog as statements see it: every row of sys_pages and sys_schema, as text
+	catalog := func() (string, error) {
+		var b strings.Builder
+		for _, t := range []string{"sys_pages", "sys_schema"} {
+			rows, _, err := w.selectAll(t)
+			if err != nil {
+				return "", err
+			}
+			for _, r := range rows {
+				if t == "sys_pages" && len(r.Vals) > 0 {
+					fmt.Fprintf(&b, "%s: %v\n", t, r.Vals[0]) // the name only: root pages move when tables grow
+				} else {
+					fmt.Fprintf(&b, "%s: %v\n", t, r.Vals)
+				}
+			}
+		}
+		return b.String(), nil
+	}
 	var queue []Step
 	for i := 0; i < rq.N; i++ {
+		if rq.LongBad > 0 && (i == rq.N/3 || i == 2*rq.N/3) {
+			// CREATE TABLE naming a column twice - its last one: accepted or refused, but if refused then as a whole
+			// (the catalog reads as before; the name can still be created)
+			name := fmt.Sprintf("dup%d", i)
+			before, e0 := catalog()
+			omark(map[string]interface{}{"e": "begin", "k": "create"})
+			e, p := w.exec(fmt.Sprintf("CREATE TABLE %s (a INT, b VARCHAR(8), a INT)", name))
+			omark(map[string]interface{}{"e": "result", "ok": e == nil})
+			if p {
+				return fail("CREATE TABLE with a repeated column panicked: " + e.Error())
+			}
+			if e != nil && e0 == nil {
+				after, e1 := catalog()
+				if e1 != nil || after != before {
+					return fail(fmt.Sprintf("CREATE TABLE %s (a INT, b VARCHAR(8), a INT) returned an error (%v) but changed the catalog:\n%s\nbefore:\n%s (%v)", name, e, after, before, e1))
+				}
+				omark(map[string]interface{}{"e": "begin", "k": "create"})
+				e2, _ := w.exec(fmt.Sprintf("CREATE TABLE %s (a INT)", name))
+				omark(map[string]interface{}{"e": "result", "ok": e2 == nil})
+				if e2 != nil {
+					return fail(fmt.Sprintf("after the refused CREATE TABLE %s the name cannot be created: %v", name, e2))
+				}
+			}
+			res.Stats["dup-column-creates"]++
+			// a table of its own for statements whose acceptance is the engine's business (column names spelled in another
+			// case): whatever it decides, a statement that returns an error leaves the table as it was
+			dump := func() string {
+				rows, _, err := w.selectAll("cs1")
+				if err != nil {
+					return "error: " + err.Error()
+				}
+				var b strings.Builder
+				for _, r := range rows {
+					fmt.Fprintf(&b, "%v\n", r.Vals)
+				}
+				return b.String()
+			}
+			stmts := []string{"INSERT INTO cs1 (A, B) VALUES (1, 'x'), (2, 'y'), (3000000000, 'z')", "INSERT INTO cs1 (a, B) VALUES (4, 'x'), (5, 7)",
+				"INSERT INTO cs1 (B, A) VALUES ('p', 6), ('q', 'r')", "UPDATE cs1 SET A = 3000000000", "UPDATE cs1 SET B = 1", "INSERT INTO cs1 (A) VALUES (8), (9), ('t')"}
+			if i == rq.N/3 {
+				stmts = append([]string{"CREATE TABLE cs1 (a INT, b VARCHAR(8))", "INSERT INTO cs1 (a, b) VALUES (10, 'k'), (11, 'l')"}, stmts...)
+			}
+			for _, q := range stmts {
+				was := dump()
+				kind := strings.ToLower(strings.Fields(q)[0])
+				omark(map[string]interface{}{"e": "begin", "k": kind})
+				e, p := w.exec(q)
+				omark(map[string]interface{}{"e": "result", "ok": e == nil})
+				if p {
+					return fail(fmt.Sprintf("statement %q panicked: %v", q, e))
+				}
+				if now := dump(); e != nil && now != was {
+					return fail(fmt.Sprintf("statement %q returned an error (%v) but changed the table:\n%sbefore:\n%s", q, e, now, was))
+				}
+				res.Stats["other-case-column-statements"]++
+			}
+		}
 		t := tables[rng.Intn(len(tables))]
 		if rq.Bias == "grow" && rng.Intn(10) < 8 {
 			t = "t1"
